@@ -29,18 +29,19 @@ ASSUMPTIONS = ['vf/models/x696.py is X.696 Basic OER in its canonical form (gate
                'as a CHOICE alternative']
 REPORT = ['modules', 'evaluations', 'byte_comparisons', 'decode_of_model_bytes', 'model_undecided', 'declared_unsupported',
           'selftest_vectors_passed', 'not_accepted_by_checks', 'carved_out', 'sender_option_form_seen']
-FLOORS = {'quick': {'byte_comparisons': 20000, 'decode_of_model_bytes': 15000}, 'thorough': {'byte_comparisons': 200000}}
+FLOORS = {'quick': {'byte_comparisons': 20000, 'decode_of_model_bytes': 15000},
+          'thorough': {'byte_comparisons': 80000, 'decode_of_model_bytes': 60000}}
 TIMEOUT = {'quick': 1800, 'thorough': 14000}
 
 
 def shards(tier):
-    return 32 if tier == 'quick' else 128
+    return 32 if tier == 'quick' else 64
 
 
 def params(tier):
     if tier == 'quick':
         return {'modules': 16, 'values': 10}
-    return {'modules': 30, 'values': 20}
+    return {'modules': 48, 'values': 15}
 
 
 def profile(tier):
